@@ -268,18 +268,26 @@ Proof.
 Qed.
 
 (** * components *)
+Lemma table_get_spec : forall adj fuel ns u, In u ns -> table_get (reach_table adj fuel ns) u = reach_ok adj fuel u.
+Proof.
+  intros adj fuel ns u. unfold table_get, reach_table. induction ns as [|x r IH]; intro H; [contradiction|].
+  cbn [map find fst]. destruct (x =? u) eqn:E.
+  - apply Z.eqb_eq in E. subst x. reflexivity.
+  - apply Z.eqb_neq in E. destruct H as [H|H]; [contradiction|]. apply IH. assumption.
+Qed.
+
 Lemma classes_cert_parts : forall g adj mutual lab, classes_cert g adj mutual lab = true ->
   (forall u, In u (nodes g) -> lookup lab u <> None) /\
   forall u v, In u (nodes g) -> In v (nodes g) ->
     (lookup lab u = lookup lab v <->
       clos_refl_trans Z (astep adj) u v /\ (mutual = true -> clos_refl_trans Z (astep adj) v u)).
 Proof.
-  intros g adj mutual lab H. unfold classes_cert in H. rewrite !andb_true_iff in H. destruct H as [[[H1 H2] H3] H4].
+  intros g adj mutual lab H. unfold classes_cert in H. cbv zeta in H. rewrite !andb_true_iff in H. destruct H as [[[H1 H2] H3] H4].
   split.
   - intros u Hu. rewrite forallb_forall in H2. specialize (H2 u Hu). destruct (lookup lab u); discriminate.
-  - intros u v Hu Hv. rewrite forallb_forall in H4. specialize (H4 u Hu).
+  - intros u v Hu Hv. rewrite forallb_forall in H4. specialize (H4 u Hu). rewrite (table_get_spec _ _ _ _ Hu) in H4.
     destruct (reach_ok adj (fuel_of g) u) as [Su|] eqn:Ru; [|discriminate].
-    rewrite forallb_forall in H4. specialize (H4 v Hv).
+    rewrite forallb_forall in H4. specialize (H4 v Hv). rewrite (table_get_spec _ _ _ _ Hv) in H4.
     destruct (reach_ok adj (fuel_of g) v) as [Sv|] eqn:Rv; [|discriminate].
     apply eqb_prop in H4. rewrite <- (reach_ok_spec _ _ _ _ Ru v). rewrite <- (reach_ok_spec _ _ _ _ Rv u).
     rewrite <- !memb_In. rewrite <- oz_eqb_eq. rewrite H4. rewrite andb_true_iff, orb_true_iff, negb_true_iff.
